@@ -115,9 +115,9 @@ func c14Scripted(t *Trace, r *Rng, root string, scenarios int) {
 		finish := func(c *c14Copy) {
 			close(c.dir.release)
 			var cerr error
-			select {
-			case cerr = <-c.done:
-			case <-time.After(20 * time.Second):
+			if e, ok := waitVal(c.done, 20*time.Second, 80*time.Second); ok {
+				cerr = e
+			} else {
 				cerr = fmt.Errorf("copy did not finish")
 			}
 			sline := strings.Join(script, ",")
@@ -183,12 +183,16 @@ func c14Scripted(t *Trace, r *Rng, root string, scenarios int) {
 				c := &c14Copy{dir: gd, dst: dst, atPin: n, done: make(chan error, 1), number: copyNo}
 				ic := idx.(bleve.IndexCopyable)
 				go func() { c.done <- ic.CopyTo(gd) }()
-				select {
-				case <-gd.pinned:
-				case err := <-c.done: // failed before it asked for a file
-					c.done <- err
-				case <-time.After(10 * time.Second):
-				}
+				reached := make(chan struct{}, 1)
+				go func() {
+					select {
+					case <-gd.pinned:
+					case err := <-c.done: // failed before it asked for a file
+						c.done <- err
+					}
+					reached <- struct{}{}
+				}()
+				_, _ = waitVal(reached, 10*time.Second, 40*time.Second)
 				parkedCopies = append(parkedCopies, c)
 				script = append(script, "C+")
 			case x < 96:
